@@ -441,6 +441,16 @@ def _by_cases(hyps, g):
     cases = [k == a for a in cands.values()] + [z3.And(*[k != a for a in cands.values()])]
     for c in cases:
         hs = hyps + [c]
+        if _by_rewriting(hs, g, timeout_ms=700):       # (a case that is decided by rewriting is decided at once)
+            continue
+        if z3.is_eq(c) and len(cands) > 1:
+            # second level: where does THIS candidate lie among the other ones (a == b1 | ... | none of them:
+            # exhaustive) -- e.g. the length of a sequence at an earlier loop head against its length now
+            a = c.arg(1)
+            others = [b for b in cands.values() if not b.eq(a)]
+            subs = [a == b for b in others] + [z3.And(*[a != b for b in others])]
+            if all(_by_rewriting(hs + [sc], g, timeout_ms=700) for sc in subs):
+                continue
         if not (_by_rewriting(hs, g) or _by_rewriting(hs, g, external=True, skip_z3=True)):
             return False
     return True
